@@ -35,7 +35,7 @@ var props = []Prop{
 	},
 	{
 		ID: "C01",
-		Harnesses: []H{{Pkg: "ecs", Fn: "HC01_Step"}, {Pkg: "ecs", Fn: "HC01_Step", Tags: "tiny"}, {Pkg: "ecs", Fn: "HC01_Two", Tier: "thorough", Minutes: 60}},
+		Harnesses: []H{{Pkg: "ecs", Fn: "HC01_Step"}, {Pkg: "ecs", Fn: "HC01_Step", Tags: "tiny"}, {Pkg: "ecs", Fn: "HC08_Batch"}, {Pkg: "ecs", Fn: "HC01_Two", Tier: "thorough", Minutes: 60}},
 		Conform: []H{{Pkg: "ecs", Fn: "HSmoke"}, {Pkg: "ecs", Fn: "HConf_Prefixes"}, {Pkg: "ecs", Fn: "HConf_Prefixes", Tags: "tiny"}},
 		Bounds:  "8 scripted prefixes (fresh, two tables, mixed sizes incl. zero-sized, two relation parents, dead target, retired table, recycled ids depth 3, two relation types) x 1 symbolic operation out of 11 kinds with every legal argument choice (entity, add/remove subsets of 6 component types, target) x 3 configurations (quick) / 24 (thorough: 4 ID profiles x capacity increments 1..3 x relation increments 1..2); thorough adds all pairs of two operations on 2 profiles; payload words fully symbolic; at most 10 entities",
 		Outside: "histories longer than prefix+2 operations; more than 10 entities; component types other than the 6 of the universe; capacity increments > 3",
@@ -47,5 +47,12 @@ var props = []Prop{
 		Conform: []H{{Pkg: "ecs", Fn: "HSmoke"}, {Pkg: "ecs", Fn: "HConf_Prefixes"}},
 		Bounds:  "(a) entityPool.Get/Recycle one-step lemmas from an arbitrary well-formed pool: up to 6 slots, every free-list shape, fully symbolic 32-bit generations (bounded claim: generations < 2^32-1; the unbounded variant HC02_PoolRecycleWrap exposes the wrap-around, a known finding), two ghost handles; intPool histories to depth 6; (b) world level: 3 prefixes (fresh / populated / free-list depth 3 with mixed generations) x 2 (thorough 3) operations out of NewEntity, NewBatch/NewBatchQ (symbolic count 1..4), RemoveEntity, Batch.RemoveEntities, Reset; 3 configurations",
 		Outside: "pools with more than 6 slots in the lemmas (the code is uniform in the slot count); generation wrap-around after 2^32 recycles of one id (known finding); more than 10 entities at world level",
+	},
+	{
+		ID: "C08",
+		Harnesses: []H{{Pkg: "ecs", Fn: "HC08_Batch"}, {Pkg: "ecs", Fn: "HC08_Batch", Tags: "tiny", Tier: "thorough"}},
+		Conform: []H{{Pkg: "ecs", Fn: "HSmoke"}, {Pkg: "ecs", Fn: "HConf_Prefixes"}},
+		Bounds:  "8 scripted prefixes x 1 symbolic batch operation (Batch.Add/Remove/Exchange, Relations.ExchangeBatch, Batch.SetRelation / Relations.SetBatch, Batch.RemoveEntities, Builder.NewBatch with count 1..3, target, component values; each with its Q variant) through 8 filter kinds (All, mask, without, exclusive, relation filters with every issued handle or zero as target) with every (add, remove) argument pair legal for all matching entities (quick: at most two components change) x 3 configurations (thorough: 24); oracle = documented single-entity effect applied to every entity matching at call time",
+		Outside: "two or more batch operations in a row; more than 10 entities; batch counts > 3",
 	},
 }
